@@ -11,7 +11,7 @@
    beyond C15_xor_detects_single (the protocol level only needs: rejected). *)
 From Coq Require Import ZArith NArith Bool List.
 From GS Require Import model.Sender model.JobLines model.ResendLine proofs.SenderProofs proofs.FrameProofs proofs.SenderLive proofs.SenderRacy
-  proofs.JobLinesProofs proofs.ResendProofs.
+  proofs.JobLinesProofs proofs.ResendProofs proofs.SenderCheck.
 Import ListNotations.
 Open Scope Z_scope.
 
@@ -75,6 +75,20 @@ Theorem C15_complete_clean : forall (C : Type) job boot ls s, 0 <= boot -> Foral
   run C job ls (init C boot true) = Some s -> quiescent C s -> accepted C (fw C s) = cmds_of C job.
 Proof. exact complete_clean. Qed.
 Print Assumptions C15_complete_clean.
+
+(* THE TIE, partly as a theorem.  The correspondence run accepts an observed wire trace when check_trace does.  Whatever it
+   accepts starts with the reset, its sender half is an execution of the model sender against the observed reply stream
+   ([srun]: each transmission is the next thing the model's _sendnext writes once the reader has handled some prefix of the
+   replies observed so far -- the reader may lag), the replies observed are in order a prefix of the model firmware's
+   reactions to the observed frames, and the accepted log returned is the model firmware's.  (Unlike C16 this stops short of
+   a run of the closed transition system: that one delivers a rejection's Resend and ok in one step, the wire in two.) *)
+Theorem C15_accepted_trace_sender_run : forall job boot evs acc, check_trace job boot evs = (true, acc) ->
+  exists g evs', evs = ETx PReset g :: evs' /\
+    (exists x', srun job evs' ({| lineno := 0; resendfrom := -1; qi := 0; clear := false; printing := true; sentl := [] |}, 0%nat) [] x') /\
+    is_prefix (rx_of evs) (snd (fw_stream {| expected := boot; accepted := [] |} evs)) = true /\
+    acc = accepted nat (fst (fw_stream {| expected := boot; accepted := [] |} evs)).
+Proof. exact check_trace_sound. Qed.
+Print Assumptions C15_accepted_trace_sender_run.
 
 (* JOB LINES ("every non-comment line of the job").  model/JobLines.v: what _sendnext transmits for a job line -- nothing for
    a host command (;@...), otherwise the line with the matches of gcoder.gcode_strip_comment_exp removed and surrounding
